@@ -20,7 +20,19 @@ Sources for each rule
 A cell is an int: external canonical address 0..0xFFFFF, or INT + offset for the 256 internal bytes.
 Cell classes: ram (store then load returns it), ro (content fixed), absent (reads 0, ignores writes),
 unspec (documentation silent about writability: either behaviour accepted, but it must be *a* memory
-behaviour), dev (device register/window: never checked).
+behaviour), dev (device register/window: never checked), ovlp (cell covered by two or more overlays whose
+relative precedence is undocumented: it must behave, consistently, like ONE of the covering overlays -- the
+model keeps one "personality" per covering overlay and drops those an observation contradicts).
+
+Configuration order: the card-slot calls (load_memory_card / set_memory_card_present /
+set_memory_card_slot_present) and the overlay registrations are applied in the order given by cfg["seq"]
+(see steps / card_outcome); the reference outcome is "the later call wins":
+  * a card loaded after the slot was declared absent is present (Python: load_memory_card sets
+    _card_present = True; Rust: load_memory_card_maps_sizes test -- the loaded image is what the window reads);
+  * set_memory_card_present(False) / set_memory_card_slot_present(false) after a load: absent (docstring, test);
+  * Python set_memory_card_present(True) after False: "Enable/disable memory card emulation" -> the card is back;
+  * Rust set_memory_card_slot_present(true) after the absent call removed the card: nothing documents what the
+    window holds -> unspec, unknown content.
 """
 
 from __future__ import annotations
@@ -68,6 +80,55 @@ def pat_bytes(k: int, base: int, n: int) -> bytes:
     return out
 
 
+# --------------------------------------------------------------------------------------- configuration order
+def steps(cfg: Dict[str, Any]) -> List[List[Any]]:
+    """Ordered card-slot / overlay configuration steps of a cfg:
+         ["card", {"size","k","writable"}] | ["slot", bool] | ["ovl", index into cfg["ovl"]]
+    cfg["seq"] gives the order explicitly; overlays it does not mention are registered afterwards.  Older cases
+    without "seq" (keys "card"/"slot") mean: load the card, then declare the slot state, then the overlays."""
+    out: List[List[Any]] = []
+    if cfg.get("seq") is not None:
+        out = [list(x) for x in cfg["seq"]]
+    else:
+        if cfg.get("card") is not None:
+            out.append(["card", cfg["card"]])
+        if cfg.get("slot") is not None:
+            out.append(["slot", bool(cfg["slot"])])
+    named = {x[1] for x in out if x[0] == "ovl"}
+    for i in range(len(cfg.get("ovl") or [])):
+        if i not in named:
+            out.append(["ovl", i])
+    return out
+
+
+def card_outcome(cfg: Dict[str, Any]) -> Dict[str, Any]:
+    """What the card window holds after the configuration sequence ("the later call wins", see module docstring).
+    -> {"card": card dict | None, "absent": bool, "reseat": bool}"""
+    py = cfg["model"].startswith("py")
+    card = None
+    absent = False
+    removed = False  # Rust: a loaded card was taken out by set_memory_card_slot_present(false)
+    reseat = False
+    for stp in steps(cfg):
+        if stp[0] == "card":
+            card = stp[1]
+            removed = reseat = False
+            if py:
+                absent = False
+        elif stp[0] == "slot":
+            if stp[1]:
+                if absent and not py and removed:
+                    reseat = True
+                absent = False
+            else:
+                absent = True
+                reseat = False
+                if not py:
+                    removed = removed or card is not None
+                    card = None
+    return {"card": card, "absent": absent, "reseat": reseat}
+
+
 # --------------------------------------------------------------------------------------- model
 class Model:
     """Reference model for one configuration.  cfg keys (all optional except model):
@@ -99,38 +160,53 @@ class Model:
             regs.append((0x2000, 0x2FFF, "lcd", "dev", ("unknown",)))
             regs.append((0xA000, 0xAFFF, "lcd", "dev", ("unknown",)))
             regs.append((CODE_LO, CODE_HI, "code", "dev", ("unknown",)))
+        ovl_idx: List[int] = []  # regions that are overlays of the implementation (precede every base layer)
+
+        def overlay(*reg: Any) -> None:
+            ovl_idx.append(len(regs))
+            regs.append(tuple(reg))
+
         for o in cfg.get("ovl") or []:
             lo, hi = o["start"], o["start"] + o["size"] - 1
             if o["kind"] == "ram":
-                regs.append((lo, hi, "oram", "ram", ("zero",)))
+                overlay(lo, hi, "oram", "ram", ("zero",))
             else:
-                regs.append((lo, hi, "orom", "ro", ("pat", o["k"])))
-        card = cfg.get("card")
-        slot = cfg.get("slot")
-        if self.py:
-            if slot is False:
-                regs.append((CARD_LO, CARD_HI, "card-absent", "absent", ("zero",)))
+                overlay(lo, hi, "orom", "ro", ("pat", o["k"]))
+        oc = card_outcome(cfg)
+        card, absent = oc["card"], oc["absent"]
+        late: List[Tuple] = []  # card-window regions that are NOT overlays (base array): below every overlay
+        if oc["reseat"]:
+            # Rust: slot re-declared present after the absent call removed the card: content undocumented
+            late.append((CARD_LO, CARD_HI, "card-reseat", "unspec", ("unknown",)))
+        elif self.py:
+            # PCE500Memory: one handler overlay over the whole window, whatever the card size
+            if absent:
+                overlay(CARD_LO, CARD_HI, "card-absent", "absent", ("zero",))
             elif card is not None:
                 end = CARD_LO + card["size"] - 1
-                regs.append((CARD_LO, end, "card" if card.get("writable", True) else "card-ro",
-                             "ram" if card.get("writable", True) else "ro", ("pat", card["k"])))
+                overlay(CARD_LO, end, "card" if card.get("writable", True) else "card-ro",
+                        "ram" if card.get("writable", True) else "ro", ("pat", card["k"]))
                 if end < CARD_HI:
-                    regs.append((end + 1, CARD_HI, "card-beyond", "unspec", ("unknown",)))
+                    overlay(end + 1, CARD_HI, "card-beyond", "unspec", ("unknown",))
             else:
-                regs.append((CARD_LO, CARD_HI, "card", "ram", ("zero",)))
+                overlay(CARD_LO, CARD_HI, "card", "ram", ("zero",))
         else:
-            if slot is False:
-                regs.append((CARD_LO, CARD_HI, "card-absent", "absent", ("zero",)))
-            elif card is not None:
+            if card is not None:
                 end = CARD_LO + card["size"] - 1
-                regs.append((CARD_LO, end, "card", "ram", ("pat", card["k"])))
+                overlay(CARD_LO, end, "card", "ram", ("pat", card["k"]))
                 if end < CARD_HI:
-                    regs.append((end + 1, CARD_HI, "card-beyond", "unspec", ("base",)))
+                    if absent:  # the absent-slot handler is still installed underneath (card loaded later)
+                        overlay(end + 1, CARD_HI, "card-beyond", "unspec", ("unknown",))
+                    else:       # base array; writability undocumented
+                        late.append((end + 1, CARD_HI, "card-beyond", "unspec", ("base",)))
+            elif absent:
+                overlay(CARD_LO, CARD_HI, "card-absent", "absent", ("zero",))
+        regs.extend(late)
         rom = cfg.get("rom")
         if rom is not None:
             api = rom["api"]
             if api == "load_rom":
-                regs.append((ROM_LO, ROM_HI, "rom", "ro", ("pat", rom["k"])))
+                overlay(ROM_LO, ROM_HI, "rom", "ro", ("pat", rom["k"]))  # PCE500Memory.load_rom: an overlay
             elif api == "window":
                 regs.append((ROM_LO, ROM_HI, "rom", "ro", ("pat", rom["k"])))
                 regs.append((0x00000, 0x3FFFF, "ro", "ro", ("base",)))
@@ -143,6 +219,18 @@ class Model:
             # CoreRuntime::load_rom alone: named ROM, but nothing documents write protection -> unspec
             regs.append((ROM_LO, ROM_HI, "romslice", "unspec", ("pat", rom["k"])))
         self.regions = regs
+        # overlay-type regions (user overlays, card window, Python ROM image) and the spans where two or more of
+        # them overlap: inside such a span precedence is undocumented -> class "ovlp" (see module docstring)
+        self.ovl_idx = ovl_idx
+        self.ovlp_spans: List[Tuple[int, int]] = []
+        pts = sorted({regs[i][0] for i in self.ovl_idx} | {regs[i][1] + 1 for i in self.ovl_idx})
+        for a, b in zip(pts, pts[1:]):
+            if sum(1 for i in self.ovl_idx if regs[i][0] <= a and b - 1 <= regs[i][1]) >= 2:
+                if self.ovlp_spans and self.ovlp_spans[-1][1] == a - 1:
+                    self.ovlp_spans[-1] = (self.ovlp_spans[-1][0], b - 1)
+                else:
+                    self.ovlp_spans.append((a, b - 1))
+        self.pers: Dict[int, List[List[Any]]] = {}
 
     # ---- canonicalisation (from the documentation, see module docstring) ----
     def canon(self, addr: int) -> int:
@@ -170,6 +258,8 @@ class Model:
                 # registers once the machine's peripherals are attached (C12/C14 cover them)
                 return "int-io", "dev"
             return "int", "ram"
+        if self.ovlp_spans and self.in_overlap(cell):
+            return "ovlp", "ovlp"
         for lo, hi, name, cls, _ in self.regions:
             if lo <= cell <= hi:
                 return name, cls
@@ -179,6 +269,21 @@ class Model:
             return "mram", "ram"  # the RAM every mirror-window address is canonicalised to
         return "ram", "ram"
 
+    def in_overlap(self, cell: int) -> bool:
+        for lo, hi in self.ovlp_spans:
+            if lo <= cell <= hi:
+                return True
+        return False
+
+    def in_overlay(self, cell: int) -> bool:
+        """Is the (external) cell covered by any overlay-type region (user overlay, card window, Python ROM)?"""
+        if cell >= INT:
+            return False
+        for i in self.ovl_idx:
+            if self.regions[i][0] <= cell <= self.regions[i][1]:
+                return True
+        return False
+
     def _base_init(self, cell: int) -> int:
         if self.fill is None:
             return 0
@@ -186,10 +291,11 @@ class Model:
             return 0
         return pat(self.fill, cell)
 
-    def init(self, cell: int) -> Any:
+    def init(self, cell: int, first: int = 0) -> Any:
+        """Initial content of a cell as seen through region #first and the layers below it."""
         if cell >= INT:
             return 0
-        for lo, hi, name, cls, ini in self.regions:
+        for lo, hi, name, cls, ini in self.regions[first:]:
             if lo <= cell <= hi:
                 if cls == "dev":
                     return None
@@ -203,13 +309,54 @@ class Model:
         return self._base_init(cell)
 
     # ---- cell state: int (known) | None (unknown) | tuple (allowed values) ----
+    def _pers(self, cell: int) -> List[List[Any]]:
+        """Personalities of an overlap cell: one [class, value state] per covering overlay still consistent with
+        everything observed so far."""
+        ps = self.pers.get(cell)
+        if ps is None:
+            ps = []
+            for i in self.ovl_idx:
+                lo, hi, name, cls, ini = self.regions[i]
+                if lo <= cell <= hi:
+                    ps.append([cls, self.init(cell, i)])
+            self.pers[cell] = ps
+        return ps
+
+    def ovlp_classes(self, cell: int) -> set:
+        """Classes of the covering overlays of an overlap cell that are still consistent with every observation."""
+        return {p[0] for p in self._pers(cell)}
+
     def get(self, cell: int) -> Any:
+        if self.ovlp_spans and cell < INT and self.in_overlap(cell):
+            vals = set()
+            for cls, val in self._pers(cell):
+                if val is None:
+                    return None
+                vals.update(val if isinstance(val, tuple) else (val,))
+            return tuple(sorted(vals)) if len(vals) != 1 else next(iter(vals))
         if cell in self.mem:
             return self.mem[cell]
         return self.init(cell)
 
+    @staticmethod
+    def _stored(cls: str, cur: Any, b: int) -> Any:
+        """Value state of a cell of class cls (ram/ro/absent/unspec) holding cur after a store of byte b."""
+        if cls == "ram":
+            return b
+        if cls == "unspec":
+            if cur is None:
+                return None
+            allowed = set(cur) if isinstance(cur, tuple) else {cur}
+            allowed.add(b)
+            return tuple(sorted(allowed)) if len(allowed) > 1 else b
+        return cur  # ro / absent
+
     def store_byte(self, cell: int, b: int) -> None:
         cls = self.info(cell)[1]
+        if cls == "ovlp":
+            for p in self._pers(cell):
+                p[1] = self._stored(p[0], p[1], b)
+            return
         if cls == "ram":
             self.mem[cell] = b
         elif cls == "dev":
@@ -232,7 +379,18 @@ class Model:
 
     def observe(self, cell: int, v: int) -> bool:
         """Compare an observed byte with the model; adopt it where the model allows several. False = mismatch."""
-        if self.info(cell)[1] == "dev":
+        cls = self.info(cell)[1]
+        if cls == "dev":
+            return True
+        if cls == "ovlp":
+            keep = []
+            for p in self._pers(cell):
+                cur = p[1]
+                if cur is None or (v in cur if isinstance(cur, tuple) else cur == v):
+                    keep.append([p[0], v])
+            if not keep:
+                return False
+            self.pers[cell] = keep
             return True
         cur = self.get(cell)
         if cur is None:
@@ -332,6 +490,8 @@ def sentinels(m: Model, seed: int) -> List[int]:
         pts.append(lo)
         pts.append(hi)
         pts.append(lo + mix32(seed, lo, hi) % (hi - lo + 1))
+    for lo, hi in m.ovlp_spans:  # overlapping overlays: both ends and one interior cell of every overlap
+        pts += [lo, hi, lo + mix32(seed, lo, hi, 7) % (hi - lo + 1)]
     for j in range(6):
         pts.append(mix32(seed, j, 0x5E) & EXT_MASK)
         pts.append(INT + (mix32(seed, j, 0x5F) & 0xFF))
@@ -347,8 +507,7 @@ def sentinels(m: Model, seed: int) -> List[int]:
 
 
 # --------------------------------------------------------------------------------------- describing accesses
-OVERLAY_REGIONS = ("oram", "orom", "card", "card-ro", "card-absent")
-PLAIN_REGIONS = ("ram", "ram-top256", "int", "int-io", "card-beyond", "romslice", "lcd", "code")
+PLAIN_REGIONS = ("ram", "ram-top256", "int", "int-io", "card-beyond", "card-reseat", "romslice", "lcd", "code")
 
 
 def describe(m: Model, addr: int, nbytes: int) -> Tuple[str, List[str]]:
@@ -358,7 +517,7 @@ def describe(m: Model, addr: int, nbytes: int) -> Tuple[str, List[str]]:
     touches / does not touch a cell in an overlay, read-only range, ROM or the mirror target RAM), mir (a byte address is a non-canonical mirror
     alias), split (the bytes' canonical cells are not consecutive), int-end (multi-byte access running past internal
     offset 0xFF), ext-top (multi-byte access running from external space into 0x100000), mir-split (mir + split),
-    ovl-edge (multi-byte access whose bytes are not all inside the same overlay / all outside overlays), ro-edge
+    ovl-edge (multi-byte access with some bytes inside overlays and some outside every overlay), ro-edge
     (multi-byte access with some bytes in a read-only range / ROM window and some not)."""
     cells = m.cells(addr, nbytes)
     names: List[str] = []
@@ -380,7 +539,8 @@ def describe(m: Model, addr: int, nbytes: int) -> Tuple[str, List[str]]:
             mir = True
     if hi:
         # an access through 0x100100..0xFFFFFF: does it touch any mapped (overlay / read-only / ROM / mirror-RAM) cell?
-        flags.append("hi-plain" if all(n in PLAIN_REGIONS for n in per_byte) else "hi-mapped")
+        plain = all(n in PLAIN_REGIONS for n in per_byte) and not any(m.in_overlay(c) for c in cells)
+        flags.append("hi-plain" if plain else "hi-mapped")
     if mir:
         flags.append("mir")
     split = False
@@ -400,16 +560,7 @@ def describe(m: Model, addr: int, nbytes: int) -> Tuple[str, List[str]]:
             flags.append("ext-top")
         if mir and split:
             flags.append("mir-split")
-        ids = set()
-        for c in cells:
-            oid = None
-            if c < INT:
-                for k, (lo, hi, name, cls, _) in enumerate(m.regions):
-                    if lo <= c <= hi:
-                        oid = k if name in OVERLAY_REGIONS else None
-                        break
-            ids.add(oid)
-        if len(ids) > 1:
+        if len({m.in_overlay(c) for c in cells}) > 1:
             flags.append("ovl-edge")
         ro = [n in ("ro", "rom") for n in per_byte]
         if any(ro) and not all(ro):
